@@ -77,6 +77,11 @@ var cliDocs = []string{`{"a":1}`, `{"a":2}`, `[1,2,3]`, `{"a":[1,2,{"b":"x"}]}`,
 	`{"a":"100%"}`, `{"a":"%d items, %s and %v%%"}`, `["%!x(MISSING)","%"]`, `{"a":"tab\tquote\"back\\slash"}`, `{"a":"é\u00e9\ud83d\ude00"}`, "{\"a\":\"raw\xff\"}", `{"a%s":"k"}`, `7`, `0`, `"%"`}
 var cliExprs = []string{"$.a", "$", "$..a", "$.b", "@.a", "$.a[0]", "avg($..a)", "1+2", "2 * pi * $", "length($)", "pow10(400)", "0/0", "1 % 0", "$[", "foo(", "$.a[?(@ > 1)]", "'s'", "\"\"", "null", "$.*", "size($)", "$.a.b.c", "'100%'", "'%s' + $.a", "$['a%s']"}
 
+// lines on which ONE expression succeeds or fails depending on the data (a zero divisor, a string among numbers, an empty array):
+// in -m mode a line that fails at run time must leave the answers to the other lines as they are
+var cliDataDocs = []string{`{"a":[0]}`, `{"a":[5]}`, `{"a":[5,2,3]}`, `{"a":[1,3]}`, `{"a":[1,"s"]}`, `{"a":[]}`, `{"a":[2]}`, `{"a":{"b":4}}`, `{"a":[0,4]}`, `{"a":["s"]}`, `{"a":7}`}
+var cliDataExprs = []string{"$.a[?(10 % @ == 0)]", "$.a[?(@ > 1)]", "$.a[(@.length - 1)]", "$.a[?(12 / @ > 2)]", "$.a[?(@ * 2 > 3)]", "$.a[0]", "$.a[?(@ % 2 == 1)]", "$.a.b", "10 % $.a[0]"}
+
 func streamCli(o *Out, r *Rng, tier string) {
 	n := 250
 	if tier == "thorough" {
@@ -102,6 +107,11 @@ func streamCli(o *Out, r *Rng, tier string) {
 		if r.Chance(10) {
 			nl = 0
 		}
+		docs := cliDocs
+		if r.Chance(20) {
+			expr, docs, nl = r.Pick(cliDataExprs), cliDataDocs, 2+r.Intn(4)
+			o.Stat("cli.data-dependent-lines")
+		}
 		var input []byte
 		for k := 0; k < nl; k++ {
 			if r.Chance(6) {
@@ -111,7 +121,7 @@ func streamCli(o *Out, r *Rng, tier string) {
 				input = append(input, []byte(`{"a":"`+strings.Repeat("x", ln)+`"}`)...)
 				o.Stat("cli.long-line")
 			} else {
-				input = append(input, r.Pick(cliDocs)...)
+				input = append(input, r.Pick(docs)...)
 			}
 			if k < nl-1 || r.Bool() {
 				if r.Chance(10) {
